@@ -202,36 +202,7 @@ def run(ctx, out, tier):
             s += 1
         else:
             out.viol("C20.sorted", "C20.sorted|list-report", ctx.where(b), "the per-file block listing is not sorted before it is returned")
-    from rules.C12 import pairing_fn
-    pf = pairing_fn(ctx)
-    if pf is not None:
-        cfg = cfg_of(pf)
-        sorts = [(bi, t) for bi, t in pf.calls() if callee_matches(t, r"<impl \[T\]>::(sort|sort_by|sort_by_key|sort_unstable_by|sort_unstable_by_key)$")]
-        oks = [bi for bi, j, st in pf.assigns() if st["lhs"]["l"] == 0 and st["rv"]["k"] == "agg" and st["rv"].get("variant") == "Ok"]
-        if sorts and all(cfg.dominates(sorts[0][0], o) for o in oks):
-            s += 1
-            # the sort key is the full start position (line AND column), else same-line blocks keep collection order
-            st = sorts[0][1]
-            cb = None
-            pl = (st["args"][1].get("m") or st["args"][1].get("c")) if len(st["args"]) > 1 else None
-            if pl:
-                adt = pf.locals[pl["l"]].get("adt")
-                cb = ctx.facts.body(adt) if adt else None
-            if cb is not None:
-                keyl = set()
-                for x in ctx.facts.with_descendants(cb):
-                    for bi2, t2 in x.calls():
-                        for a2 in t2["args"]:
-                            keyl |= ctx.prov.read_operand(x, a2)
-                    keyl |= ctx.prov.read_local(x, 0, ())
-                only_line = P.has_path(keyl, "line") and not P.has_call(keyl, r"Position as std::cmp::Ord>::cmp$|Position as std::cmp::PartialOrd>::partial_cmp$") and not P.has_path(keyl, "character")
-                if only_line:
-                    out.viol("C20.sorted", "C20.sorted|block-order-key", ctx.where(cb),
-                             "blocks are sorted by line only: blocks whose start tags share a line are reported in collection (innermost-first) order instead of source order")
-                else:
-                    s += 1
-        else:
-            out.viol("C20.sorted", "C20.sorted|blocks", ctx.where(pf), "parsed blocks are not sorted by start position before they are returned")
+    s += check_block_sort(ctx, out, "C20.sorted")
     out.inst("C20.sorted", s, 3, ["list report sorted by line; parsed blocks sorted by start position"])
 
     # ------------------------------------------------------------------ per-block isolation and fresh interpreters
@@ -249,6 +220,45 @@ def run(ctx, out, tier):
                      "a Lua interpreter is shared between concurrently running scripts: which script's globals a block sees depends on thread scheduling")
             out.inst("C20.interp", 0, 1)
     return meta()
+
+
+def check_block_sort(ctx, out, rule):
+    """Parsed blocks are sorted by their full start position before they are returned."""
+    s = 0
+    from rules.C12 import pairing_fn
+    pf = pairing_fn(ctx)
+    if pf is None:
+        out.viol(rule, "%s|pairing-fn" % rule, "-", "pairing function not found")
+        return 0
+    cfg = cfg_of(pf)
+    sorts = [(bi, t) for bi, t in pf.calls() if callee_matches(t, r"<impl \[T\]>::(sort|sort_by|sort_by_key|sort_unstable_by|sort_unstable_by_key)$")]
+    oks = [bi for bi, j, st in pf.assigns() if st["lhs"]["l"] == 0 and st["rv"]["k"] == "agg" and st["rv"].get("variant") == "Ok"]
+    if sorts and all(cfg.dominates(sorts[0][0], o) for o in oks):
+        s += 1
+        st = sorts[0][1]
+        cb = None
+        pl = (st["args"][1].get("m") or st["args"][1].get("c")) if len(st["args"]) > 1 else None
+        if pl:
+            adt = pf.locals[pl["l"]].get("adt")
+            cb = ctx.facts.body(adt) if adt else None
+        if cb is not None:
+            keyl = set()
+            for x in ctx.facts.with_descendants(cb):
+                for bi2, t2 in x.calls():
+                    for a2 in t2["args"]:
+                        keyl |= ctx.prov.read_operand(x, a2)
+                keyl |= ctx.prov.read_local(x, 0, ())
+            only_line = P.has_path(keyl, "line") and not P.has_call(keyl, r"Position as std::cmp::Ord>::cmp$|Position as std::cmp::PartialOrd>::partial_cmp$") and not P.has_path(keyl, "character")
+            if only_line:
+                out.viol(rule, "%s|block-order-key" % rule, ctx.where(cb),
+                         "blocks are sorted by line only: blocks whose start tags share a line are reported in collection (innermost-first) order instead of source order")
+            else:
+                s += 1
+        else:
+            s += 1
+    else:
+        out.viol(rule, "%s|blocks" % rule, ctx.where(pf), "parsed blocks are not sorted by start position before they are returned")
+    return s
 
 
 def meta():
